@@ -2,11 +2,11 @@ package sym
 
 import (
 	"fmt"
-	"math"
-	"sync/atomic"
 	"go/types"
+	"math"
 	"sort"
 	"strings"
+	"sync/atomic"
 
 	"golang.org/x/tools/go/ssa"
 
